@@ -110,10 +110,12 @@ def part_framing(ctx, rnd):
     ctx.extra["framing_scenarios_emitted"] = len(scns)
     if not scns:
         raise vlib.InfraError("framing: no scenario emitted")
-    if ctx.thorough and len(scns) > 12000:
-        scns.sort(key=lambda s: s["id"])
-        rnd.shuffle(scns)
-        scns = scns[:12000]
+    # the writer-side scenarios each build a keepstore router and make three HTTP requests: sample them
+    scns.sort(key=lambda s: s["id"])
+    rnd.shuffle(scns)
+    wr = [s for s in scns if s["mode"] == "write"][:2500 if ctx.thorough else 1000]
+    rd = [s for s in scns if s["mode"] == "read"][:12000]
+    scns = rd + wr
     # beyond the model's bounds: long responses, every kind of cut position
     base = 2 * 10 ** 7
     nrand = 3000 if ctx.thorough else 400
